@@ -20,8 +20,13 @@ ModKinds == {"mod_int", "mod_opt_set", "mod_opt_clear", "mod_opt_swap", "mod_str
 (* not only the first, must see the captured variables                                                             *)
 DrvKinds == {"drv_map", "drv_filter", "drv_map_count", "drv_filter_count", "drv_map_nested"}
 
+(* fourth family: the captured variable is a list or an object and its single use is as the *target* of a write, *)
+(* as a receiver or as an indexed / dotted operand                                                              *)
+RecvKinds == {"rv_idx_read", "rv_idx_write", "rv_idx_opwrite", "rv_push", "rv_len", "rv_fld_read", "rv_fld_write", "rv_fld_opwrite", "rv_method",
+              "rv_idx_expr", "rv_arg", "rv_is"}
+
 VARIABLES pos, modx
-Init == pos \in Positions \cup ModKinds \cup DrvKinds /\ modx \in BOOLEAN
+Init == pos \in Positions \cup ModKinds \cup DrvKinds \cup RecvKinds /\ modx \in BOOLEAN
 Next == UNCHANGED <<pos, modx>>
 
 FT == "fn() -> int"
@@ -101,7 +106,41 @@ DrvProg ==
                                           Print(MCall(V("src"), "map", <<V("outer")>>))>>)
     \o (IF modx THEN <<Print(X), Print(V("calls"))>> ELSE <<>>) \o <<Print(S("end"))>>
 
+(* xs and bx are declared in the maker; the literal uses exactly one of them, once; a second literal (made in the same
+   maker) observes the state afterwards *)
+RvBody(p) ==
+    CASE p = "rv_idx_read" -> <<Let("k0", I(0)), Ret(Idx(V("xs"), V("k0")))>>
+      [] p = "rv_idx_write" -> <<Let("k0", I(0)), Assign(Idx(V("xs"), V("k0")), "=", I(5)), Ret(I(1))>>
+      [] p = "rv_idx_opwrite" -> <<Let("k0", I(0)), Assign(Idx(V("xs"), V("k0")), "+", I(5)), Ret(I(1))>>
+      [] p = "rv_push" -> <<ExprS(MCall(V("xs"), "push", <<I(9)>>)), Ret(I(1))>>
+      [] p = "rv_len" -> <<Ret(MCall(V("xs"), "len", <<>>))>>
+      [] p = "rv_fld_read" -> <<Ret(Fld(V("bx"), "v"))>>
+      [] p = "rv_fld_write" -> <<Assign(Fld(V("bx"), "v"), "=", I(5)), Ret(I(1))>>
+      [] p = "rv_fld_opwrite" -> <<Assign(Fld(V("bx"), "v"), "+", I(5)), Ret(I(1))>>
+      [] p = "rv_method" -> <<Ret(MCall(V("bx"), "get_v", <<>>))>>
+      [] p = "rv_idx_expr" -> <<Let("k0", I(0)), Ret(Bin("+", Idx(V("xs"), V("k0")), I(1)))>>
+      [] p = "rv_arg" -> <<Let("h", Fn("h", <<P("q", "[int...]")>>, "int", <<Ret(MCall(V("q"), "len", <<>>))>>)), Ret(Call(V("h"), <<V("xs")>>))>>
+      [] p = "rv_is" -> <<LetT("other", "[int...]", List(<<>>)), If(Bin("is", V("xs"), V("other")), <<Ret(I(1))>>), Ret(I(0))>>
+RvClass == [k |-> "class", n |-> "Bx", export |-> FALSE, fields |-> <<[n |-> "v", ty |-> "int"]>>,
+            ctor |-> <<[ps |-> <<P("v0", "int")>>, b |-> <<Assign(Fld(Self, "v"), "=", V("v0"))>>]>>,
+            methods |-> <<[n |-> "get_v", ps |-> <<>>, rt |-> "int", b |-> <<Ret(Fld(Self, "v"))>>]>>]
+RvProg ==
+    <<RvClass>> \o
+    (IF modx THEN <<LetT("xs", "[int...]", List(<<I(70), I(80), I(90)>>)), Let("bx", New("Bx", <<I(77)>>))>> ELSE <<>>) \o
+    <<Let("mk", Fn("mk", <<>>, "[" \o FT \o "...]",
+                   <<LetT("xs", "[int...]", List(<<I(1), I(2)>>)), Let("bx", New("Bx", <<I(3)>>)),
+                     Let("lit", Fn("lit", <<>>, "int", RvBody(pos))),
+                     Let("obs", Fn("obs", <<>>, "int", <<Print(V("xs")), Print(Fld(V("bx"), "v")), Ret(I(0))>>)),
+                     Ret(List(<<V("lit"), V("obs")>>))>>)),
+      Let("fs", Call(V("mk"), <<>>)), Let("z0", I(0)), Let("z1", I(1)),
+      Let("f", Idx(V("fs"), V("z0"))), Let("o", Idx(V("fs"), V("z1"))),
+      Let("use2", Fn("use2", <<P("g", FT)>>, "int", <<Ret(Call(V("g"), <<>>))>>)),
+      Print(MCall(V("f"), "is_closure", <<>>)),
+      Print(Call(V("f"), <<>>)), Print(Call(V("o"), <<>>)), Print(Call(V("use2"), <<V("f")>>)), Print(Call(V("o"), <<>>))>>
+    \o (IF modx THEN <<Print(V("xs")), Print(Fld(V("bx"), "v"))>> ELSE <<>>) \o <<Print(S("end"))>>
+
 Prog ==
+    IF pos \in RecvKinds THEN RvProg ELSE
     IF pos \in DrvKinds THEN DrvProg ELSE
     IF pos \in ModKinds THEN ModProg ELSE
     (IF modx THEN <<Let("x", I(50))>> ELSE <<>>) \o
